@@ -287,6 +287,32 @@ def search(h):
         raise it2.exc("TimeoutError")
     h.it.wait_for_hook = wait_for
     disc = h.new(DISC + ":AirTouchDiscoverer", h.get(G["mod"] + ":CONFIG"), **({"remote_host": "192.168.1.9"} if unicast else {}))
+
+    def request_loop(it, node, env):
+        # termination of the request loop is an obligation (a loop that does not end would otherwise only exhaust the interpreter's cap)
+        import ast as _ast
+        if not isinstance(node, _ast.While):
+            # a `for` over a finite range ends by itself; the number of requests is obliged separately
+            h.oblige("the request loop ends after at most three turns (search always returns)", True, kind="loop-test")
+            return NotImplemented
+        from pyvc.interp import _Break, _Continue
+        turns = 0
+        while it.test(it.eval(node.test, env)):
+            turns += 1
+            if turns > 3:
+                h.oblige("the request loop ends after at most three turns (search always returns)", False, kind="loop-test")
+                raise PathEnd()
+            try:
+                it.exec_block(node.body, env)
+            except _Break:
+                break
+            except _Continue:
+                continue
+        else:
+            it.exec_block(node.orelse, env)
+        h.oblige("the request loop ends after at most three turns (search always returns)", True, kind="loop-test")
+        return None
+    h.it.loop_hooks[(DISC + ":AirTouchDiscoverer.search", 0)] = request_loop
     t0 = aio.now(h.it)
     r = h.method(disc, "search")
     h.oblige("search always returns (never raises)", r.ok)
